@@ -78,3 +78,17 @@ Proof.
   - right. unfold mem_str in H. apply existsb_exists in H as (x & Hx & He).
     apply String.eqb_eq in He. subst. exact Hx.
 Qed.
+
+(* the Go fields behind the model's state components that new_cycle_fields
+   requires to be back at their initial values (head, tpool, tqueue, pend, done,
+   cache, offset): queue.Reset() must (re)initialise each of them *)
+Definition cycle_fields : list string :=
+  ["headerHead"; "blockTaskPool"; "blockTaskQueue"; "blockPendPool"; "blockDonePool"; "resultCache"; "resultOffset"].
+
+Lemma reset_reinitialises_cycle_fields :
+  forall f, In f cycle_fields -> In f c18_reset_assigns.
+Proof.
+  assert (H : forallb (fun f => mem_str f c18_reset_assigns) cycle_fields = true) by (vm_compute; reflexivity).
+  intros f Hf. rewrite forallb_forall in H. specialize (H f Hf).
+  unfold mem_str in H. apply existsb_exists in H as (x & Hx & He). apply String.eqb_eq in He. subst. exact Hx.
+Qed.
